@@ -346,6 +346,27 @@ def run_case(case, obs):
     twin = S.build(case['region'])
     eq_bool(obs, region, twin, True, 'eq-identical-build-unequal', f'two builds of the same {cname} spec are unequal', 'eq-reflexive-symmetric')
     eq_bool(obs, twin, region, True, 'eq-not-symmetric', f'{cname}: a == b but not b == a', 'eq-reflexive-symmetric')
+    # the entries of meta / visual are a mapping: the order in which they were put in is not part of the value
+    if len(region.meta) > 1 or len(region.visual) > 1:
+        import regions as _regions
+        rm = _regions.RegionMeta()
+        for k in reversed(list(dict.keys(region.meta))):
+            rm[k] = _copy.deepcopy(dict.__getitem__(region.meta, k))
+        rv = _regions.RegionVisual()
+        for k in reversed(list(dict.keys(region.visual))):
+            rv[k] = _copy.deepcopy(dict.__getitem__(region.visual, k))
+        reordered = region.copy(meta=rm, visual=rv)
+        obs.count('reordered-meta-twins')
+        eq_bool(obs, region, reordered, True, 'eq-depends-on-entry-order', f'{cname}: the same meta/visual entries inserted in another order compare unequal', 'eq-reflexive-symmetric')
+        eq_bool(obs, reordered, region, True, 'eq-depends-on-entry-order', f'{cname}: (reversed) the same meta/visual entries inserted in another order compare unequal',
+                'eq-reflexive-symmetric')
+    # copy(meta=None) / copy(visual=None): None is a value like any other - the constructor's "no metadata given"
+    if not cname.startswith('Compound'):
+        for attr in ('meta', 'visual'):
+            cn = region.copy(**{attr: None})
+            other_attr = 'visual' if attr == 'meta' else 'meta'
+            obs.check(dict(getattr(cn, attr)) == {} and dict(getattr(cn, other_attr)) == dict(getattr(region, other_attr)), 'copy-with-changes-wrong-fields',
+                      f'{cname}.copy({attr}=None): {attr} is {dict(getattr(cn, attr))} (the constructor gives an empty one for None)', 'copy-changes')
     for other in (None, 3, 'x', [region]):
         eq_bool(obs, region, other, False, 'eq-other-type-equal', f'{cname} == {other!r}', 'eq-returns-bool')
     ur = unit_reexpressed(region)
